@@ -1,9 +1,9 @@
 package props
 
 import (
-	"go/constant"
 	"fmt"
 	"go/ast"
+	"go/constant"
 	"go/token"
 	"go/types"
 	"strings"
@@ -433,4 +433,72 @@ func addedConst(info *types.Info, s ast.Stmt) (target ast.Expr, k int64, ok bool
 		}
 	}
 	return nil, 0, false
+}
+
+// declRef is a function declaration together with the package that holds it.
+type declRef struct {
+	pkg *packages.Package
+	fd  *ast.FuncDecl
+}
+
+var declIndex map[*types.Func]declRef
+
+// calleeDecls lists the declarations of the module functions that fd calls statically (methods and
+// functions, any package of the module), transitively up to depth levels, without fd itself.  Rules that
+// look for a construct "in role function F" use it to keep finding the construct after a maintainer moved
+// it into a helper.
+func calleeDecls(p *load.Program, pkg *packages.Package, fd *ast.FuncDecl, depth int) []declRef {
+	if declIndex == nil {
+		declIndex = map[*types.Func]declRef{}
+		for _, pk := range p.Pkgs {
+			if !strings.HasPrefix(pk.PkgPath, load.Module) {
+				continue
+			}
+			for _, f := range pk.Syntax {
+				for _, d := range f.Decls {
+					if x, ok := d.(*ast.FuncDecl); ok && x.Body != nil {
+						if fn, ok := pk.TypesInfo.Defs[x.Name].(*types.Func); ok {
+							declIndex[fn] = declRef{pk, x}
+						}
+					}
+				}
+			}
+		}
+	}
+	seen := map[*ast.FuncDecl]bool{fd: true}
+	var out []declRef
+	var walk func(pk *packages.Package, d *ast.FuncDecl, level int)
+	walk = func(pk *packages.Package, d *ast.FuncDecl, level int) {
+		if level >= depth {
+			return
+		}
+		ast.Inspect(d.Body, func(n ast.Node) bool {
+			c, ok := n.(*ast.CallExpr)
+			if !ok {
+				return true
+			}
+			var id *ast.Ident
+			switch f := ast.Unparen(c.Fun).(type) {
+			case *ast.Ident:
+				id = f
+			case *ast.SelectorExpr:
+				id = f.Sel
+			}
+			if id == nil {
+				return true
+			}
+			fn, ok := pk.TypesInfo.Uses[id].(*types.Func)
+			if !ok {
+				return true
+			}
+			if ref, ok := declIndex[fn]; ok && !seen[ref.fd] {
+				seen[ref.fd] = true
+				out = append(out, ref)
+				walk(ref.pkg, ref.fd, level+1)
+			}
+			return true
+		})
+	}
+	walk(pkg, fd, 0)
+	return out
 }
